@@ -134,6 +134,9 @@ class FaultTableMonitor(Monitor):
                 if rec.hk == "src":
                     if not eofs or eofs[-1].info[1] != cond:
                         w.violate("C14.cancel_not_signalled", f"a.src cond={cond} eofs={[e.info[1] for e in eofs]}", "")
+                    if c.mode == UNACK and rec.post.state != "IDLE":
+                        # unacknowledged mode: nothing is awaited after the EOF (cancel), the transaction is over
+                        w.violate("C14.cancel_not_completed", f"a.src cond={cond} still {rec.post.step} after the EOF (cancel) in unacknowledged mode", "")
                 else:
                     self.pending_cancel[key] = cond
                     if c.mode == ACK or c.closure:
@@ -160,6 +163,9 @@ class FaultTableMonitor(Monitor):
         if rec.exc is not None and not rec.exc.is_lib and rec.vfs_rejects == 0 and any(k == key for (k, _c) in self.ignored):
             w.violate("C14.raises_after_ignored_fault", f"{rec.ent}.{rec.hk} {rec.exc!r} in={rec.inb_kind} step={rec.pre.step} ignored={sorted(c for (k, c) in self.ignored if k == key)}", rec.exc.msg)
         # --- receiver: a cancel must reach user and peer, and soon (nothing from the peer is needed for it)
+        bits = c.ind_a if rec.ent == "a" else c.ind_b
+        if key in self.pending_cancel and not (bits & 8) and (fins or rec.post.state == "IDLE"):
+            self.pending_cancel.pop(key)  # (indication switched off: the Finished PDU / the idle state show the completion)
         if key in self.pending_cancel and not fin_inds and not rec.faults:
             self.waiting[key] = self.waiting.get(key, 0) + 1
             if self.waiting[key] == 6 and rec.post.state != "IDLE":
@@ -207,8 +213,11 @@ def run_one(t):
         # incl. empty files: with nothing to receive, completion is decided in the very call that declares the rejection
         f["size_sel"] = [0, 3, 1, 6][t.choose(4, "size")]
     cfg = Cfg.draw(t, f)
-    cfg.ind_a |= 8
-    cfg.ind_b |= 8
+    # the oracle observes completion through the Transaction-Finished indication; in a quarter of the runs the switches stay as
+    # drawn (possibly off): completion is then observed through the Finished PDU / the idle state only
+    if t.choose(4, "indication switches as drawn") != 3:
+        cfg.ind_a |= 8
+        cfg.ind_b |= 8
     if cfg.size // max(cfg.eff_seg, 1) > 30:
         cfg.size_sel = 6
         cfg.finish()
